@@ -184,6 +184,48 @@ def short(s, n=120):
 # ------------------------------------------------------------------------------------------------
 # child groups
 
+
+def iterator_object_checks(R, make, make_other, got, sig, case):
+    """Beyond one plain pass: an exhausted object stays exhausted (also through a new iter()), next() followed by a for
+    loop continues where it stopped, and two objects alive at the same time and advanced in turn each behave as if alone.
+    Returns False after reporting a violation."""
+    try:
+        g = make()
+        plain = [tuple(x) for x in g]
+        again = [tuple(x) for x in g]
+        if again:
+            R.violate(sig + ".restarted", "a second pass over the same (exhausted) object yields %d items again" % len(again), case)
+            return False
+        if len(got) >= 2:
+            g = make()
+            first = tuple(next(g))
+            rest = [tuple(x) for x in g]
+            if [first] + rest != got:
+                R.violate(sig + ".iter_after_next", "next() followed by a for loop over the same object delivers %d items, a plain pass %d" % (1 + len(rest), len(got)), case)
+                return False
+        a, b = make(), make_other()
+        solo_b = [tuple(x) for x in make_other()]
+        ga, gb, da, db = [], [], False, False
+        while not (da and db):
+            if not da:
+                try:
+                    ga.append(tuple(next(a)))
+                except StopIteration:
+                    da = True
+            if not db:
+                try:
+                    gb.append(tuple(next(b)))
+                except StopIteration:
+                    db = True
+        if ga != plain or gb != solo_b or plain != got:
+            R.violate(sig + ".two_objects_alive", "two generator objects advanced in turn deliver %d / %d items, alone %d / %d" % (len(ga), len(gb), len(plain), len(solo_b)), case)
+            return False
+    except BaseException as e:  # noqa: BLE001
+        R.violate(sig + ".exception", "iterator object misbehaved: %r" % (e,), case)
+        return False
+    return True
+
+
 def child_kmers(pk, rng, n, R, ktmon, work):
     cases = []
     for i in range(n):
@@ -219,6 +261,10 @@ def child_kmers(pk, rng, n, R, ktmon, work):
         if got != ref:
             R.violate("py.kmers.vs_reference", "binding and core agree but differ from the Python reference model", case)
             continue
+        if R.evaluations % 4 == 0 and len(s) < 400:
+            k2 = k + 1 if k < 31 else k - 1
+            if not iterator_object_checks(R, lambda: pk.KmerGenerator(s, k), lambda: pk.KmerGenerator(s[::-1] + "ACGTTGCA", max(1, k2)), got, "py.kmers", case):
+                continue
         if R.evaluations % 97 == 1:
             R.sample({"seq": short(s), "k": k, "tuples": len(got)})
 
@@ -270,6 +316,10 @@ def child_min(pk, rng, n, R, ktmon, work):
         if got != ref:
             R.violate("py.min.vs_reference", "binding and core agree (%s) but the reference model gives %s" % (got[:4], ref[:4]), case)
             continue
+        if R.evaluations % 4 == 0:
+            w2 = w + 1
+            if not iterator_object_checks(R, lambda: pk.MinimiserGenerator(s, w, m), lambda: pk.MinimiserGenerator(s[::-1] + "ACGTTGCAGGAT", w2, m), got, "py.min", case):
+                continue
         if R.evaluations % 97 == 1:
             R.sample({"seq": short(s), "w": w, "m": m, "runs": len(got)})
 
@@ -431,6 +481,11 @@ def child_cgr(pk, rng, n, R, ktmon, work):
             cls, s = directed_affix(rng)
         else:
             cls, s = "nuc", gen_nuc(rng)
+        if i % 400 == 11:
+            # two corners sharing a coordinate, > 1000 bases, power-of-two square: that coordinate is S * 2^-(i+2)
+            # exactly, through the subnormal range
+            letters = rng.choice(["ACac", "ATUatu"])
+            cls, s, S = "two-corner>1000", "".join(rng.choice(letters) for _ in range(rng.randint(1000, 1100))), rng.choice([1, 16, 1 << 20])
         cases.append({"op": "cgr", "seq": s, "S": S, "_cls": cls})
     core = core_eval(ktmon, work, cases, "cgr")
     comps = {}
@@ -465,6 +520,20 @@ def child_cgr(pk, rng, n, R, ktmon, work):
         if [tuple(p) for p in got] != [tuple(p) for p in exp]:
             R.violate("py.cgr.vs_core", "Python CGR differs from the core CGR", case)
             continue
+        if c["_cls"] == "two-corner>1000":
+            R.cls(c["_cls"])
+            axis = 0 if "C" in s.upper() else 1
+            bad_at = None
+            for i2, p in enumerate(got):
+                e = float(S)
+                for _ in range(i2 + 2):
+                    e *= 0.5
+                if p[axis] != e:
+                    bad_at = (i2, p[axis], e)
+                    break
+            if bad_at:
+                R.violate("py.cgr.subnormal", "base %d: shared coordinate %r, the midpoint rule gives exactly %r" % bad_at, {"seq": short(s, 60), "S": S, "len": len(s)})
+                continue
         ex = refmodel.cgr_exact(s, S, 45)
         ok = len(got) == len(s)
         for (gx, gy), (fx, fy) in zip(got, ex):
@@ -939,6 +1008,9 @@ def main():
                 merged.evaluations += 1
                 merged.violate("py.interpreter_died:%s" % stage, "child interpreter for group %d ended with %s: %s" % (g, ("signal %d" % -rc) if rc < 0 else ("exit %d" % rc), tail[-300:]),
                                {"stage": stage, "group": g, "seed": seed, "tier": tier, "rayon_threads": threads})
+            elif "No space left on device" in tail or "Errno 28" in tail:
+                merged.inconclusive += 1
+                merged.inconclusive_notes.append("environment: scratch space full in child %d of %s" % (g, stage))
             else:
                 print("child failed: rc=%s\n%s" % (rc, tail))
                 return 2
